@@ -25,6 +25,9 @@ def jobs(tier):
             js.append({"id": f"O3.history.doc{doc}.fields{fcfg}.first-written-by-update", "func": "VerifH_C11_History",
                        "conf": {"doc": doc, "fcfg": fcfg, "class": 1, "c04": 0}, "_obligation": "O3", "_covers": ["history"], "unwind": 60,
                        "_expect": "known:" + KF, "_known_labels": ["update-stored-block-is-not-plaintext", "update-stored-block-carries-encryption-link"]})
+    for doc, fcfg in ((1, 0), (0, 3)):
+        js.append({"id": f"O3.history.doc{doc}.fields{fcfg}.key-store-lost-before-the-update", "func": "VerifH_C11_History",
+                   "conf": {"doc": doc, "fcfg": fcfg, "class": 0, "c04": 0, "keyloss": 1}, "_obligation": "O3", "_covers": ["history", "refused-without-key"], "unwind": 60})
     js.append({"id": "O3.history.no-encryption", "func": "VerifH_C11_History", "conf": {"doc": 0, "fcfg": 0, "class": 2, "c04": 0},
                "_obligation": "O1", "_covers": ["history"], "unwind": 60})
     for doc in (0, 1):
